@@ -391,3 +391,8 @@ Definition find_face_ray (n : nat) (P : rows) (c : vec) : option vec :=
 Definition tau_margin : Qc := qfrac 1 1000000.     (* tau_allow = tau_req = 1e-6, around minilp's EPS = 1e-8 *)
 Definition tol_member : Qc := qfrac 1 100000000.   (* Polytope::contains: raw distance >= -1e-8 *)
 Definition delta_obj : Qc := qfrac 1 1000000.      (* objective value within 1e-6 of the exact minimum *)
+(* on a system that is itself certified thin (no point with slack tau*|a|_1: thinner than the solver tolerance) the
+   containment of a witness can only be asked up to the same margin: the tie uses tol_thin instead of tol_member there *)
+Definition tol_thin : Qc := qfrac 1 1000000.
+Definition tol_for (n : nat) (P : rows) : Qc :=
+  match thin_cert n tau_margin P with Some true => tol_thin | _ => tol_member end.
